@@ -54,6 +54,15 @@ CHECKS = {
              "(lookups, :undefined for absent keys, #d, each-pair multiset). Exploration-level over histories <= 30 steps.",
         note="Trusted: the dict model; Match-style numeric comparison; d@k not judged (reference defines @ for lists/strings only).",
         design="3/C10"),
+    "C16": dict(
+        category="exploration",
+        technique="stateful property-based testing (Hypothesis rule-based state machines) of the real stores on a temp directory against a dict model, with the cache accounting invariant checked after every step",
+        text="Generated set/get/missing/reopen/unload/oversize histories run against KeyValueStorage (Python API and Klong source) "
+             "and TableStorage under cache limits that force evictions; every result is compared with a dict model (table store: "
+             "merge with stored rows winning), the FileCache accounting invariant and the directory contents are checked after "
+             "each step, and a freshly opened store is scanned at the end. Exploration-level.",
+        note="Trusted: dict / merge model; logical clock replacing time.time_ns inside the cache; sequential use only; prefix-free keys.",
+        design="3/C16"),
 }
 
 NOT_APPLICABLE = {
